@@ -393,8 +393,14 @@ func envPickler(x starlark.Value) (module, name string, args starlark.Tuple, err
 		if x.Type() == "range" {
 			return "dawn", "Range", starlark.Tuple{starlark.String(x.String())}, nil
 		}
-		// An iterable that is neither a sequence nor a mapping ("abc".codepoints(), b"ab".elems()) is its type and its
-		// elements; the encoder itself has no form for it.
+		// A view of a string or of bytes is not the list of its elements (it prints, concatenates and compares
+		// differently, and two views of the empty string have the same elements): its text names the string and the view.
+		switch x.Type() {
+		case "string.elems", "string.codepoints", "bytes.elems":
+			return "dawn", "Iterable", starlark.Tuple{starlark.String(x.Type()), starlark.String(x.String())}, nil
+		}
+		// Any other iterable that is neither a sequence nor a mapping is its type and its elements; the encoder itself has
+		// no form for it.
 		if it, ok := x.(starlark.Iterable); ok {
 			_, isSequence := x.(starlark.Sequence)
 			_, isMapping := x.(starlark.IterableMapping)
